@@ -40,8 +40,6 @@ def classify(tags, fields, typ, a_line, b_line, helpers_match_models=True):
         if not helpers_match_models:
             return 'omitempty-emptiness:unsafe-vs-safe:helper-no-longer-matches-its-model'
         return 'omitempty-emptiness:unsafe-vs-safe'
-    if fs and all(f.startswith('bad') for f in fs) and 'codec.notfastpath' in t and re.search(r'\[\d*\]uint8', typ):
-        return 'damaged-input:byte-slice-or-array-destination:fastpath-vs-reflection'
     if any(f.startswith('<missing') for f in fs):
         return 'variant-stopped-early'
     return 'variant-diff:' + '+'.join(sorted(fs))
@@ -189,6 +187,6 @@ def main(chk):
 MANIFEST = {
     'category': 'proof',
     'technique': 'Coq proof on models of the safe/unsafe helper pair (each tied to its build by vm_compute correspondence) + differential run of all 8 build-tag variants on one seeded stream + regeneration diff of all generated files',
-    'text': 'Proved: the reflect-based and the memory-compare implementations of the omitempty emptiness test agree on every value inside an explicit structural guard, in both modes (C05_isempty_agree), and the guard is tight (C05_isempty_refuted: one witness per excluded class; that divergence is finding F05-1). Each model is run against the isEmptyValue of its own build. Whole-library variant agreement is decided differentially: the harness is built under all eight tag sets, run on one seeded stream of (format, options, type, value, damaged inputs) and compared field by field; the in-tree generator is re-run and every generated file compared byte for byte. Partial: no theorem covers the monomorphiser or whole-library variant equivalence.',
+    'text': 'Proved: the reflect-based and the memory-compare implementations of the omitempty emptiness test agree on every value inside an explicit structural guard, in both modes (C05_isempty_agree), and the guard is tight (C05_isempty_refuted: one witness per excluded class; that divergence is finding F05-1). Each model is run against the isEmptyValue of its own build. Whole-library variant agreement is decided differentially: the harness is built under all eight tag sets, run on one seeded stream of (format, options, type, value; typed, schema-less, pre-populated, same-shape, interface-held, narrowed and array-shaped destinations; truncated, bit-flipped, marker-substituted and all 256 one-byte inputs) and compared field by field; the in-tree generator is re-run and every generated file compared byte for byte. Partial: no theorem covers the monomorphiser or whole-library variant equivalence.',
     'note': 'Trusted: Coq kernel; hand-written models of isEmptyValue (both builds; correspondence-checked); the differential harness and its deterministic value printer; the in-tree generator is executed, not modelled. Not proved: semantic preservation of gen_mono.go, fast-path templates vs reflection path (compared only on the explored stream).',
 }
